@@ -693,7 +693,8 @@ def run_c12(tier, budget, rnd) -> StreamResult:
     post = []          # checks done after the model answered
 
     def one_run(make_env_gen, solver_factory, reps, limit, procs, gapname):
-        """→ (gap matrix, action matrix, hidden game per repetition) of one real evaluate() call"""
+        """→ (gap matrix, action matrix, hidden game per repetition) of one real evaluate() call
+        (`gapname` = the gap function handed to evaluate(); the environments carry their own)"""
         env_gen, tag = make_env_gen()
         solver = solver_factory()
         if os.path.exists(cap_path):
@@ -992,18 +993,42 @@ def run_c12(tier, budget, rnd) -> StreamResult:
                 return SOLVERS[solver](inst)
             ctx = {"source": f"harness DrawGen ({sharing})", "n": n, "game_class": cls, "gap_function": gapname, "seed": seed,
                    "solver": solver, "repetitions": reps, "run_steps_limit": limit, "processes": procs, "pre_used_envs": preused}
+            # every third case hands evaluate() ANOTHER gap function than the one the environments were built with (evaluating
+            # one norm on environments that reward with another is what a caller comparing norms does).  Which of the two the
+            # matrix reports is the implementation's choice; what C12 demands is ONE trajectory: the whole column under the
+            # environment's gap function, or the whole column under the one given to evaluate() — never a mixture.
+            other_gap = [g_ for g_ in ("linf_norm", "l1_norm", "exploitability") if g_ != gapname][ci % 2] if ci % 3 == 1 else None
+            if other_gap:
+                ctx["gap_function_given_to_evaluate"] = other_gap
+                res.count("B:evaluate-gap≠environment-gap")
             try:
-                e, a, hidden = one_run(make, solver_factory, reps, limit, procs, gapname)
+                e, a, hidden = one_run(make, solver_factory, reps, limit, procs, other_gap or gapname)
             except Exception as ex:
                 res.violation(f"evaluate() raised {type(ex).__name__}: {ex}", ctx, key="evaluate:raised")
                 continue
             res.evaluations += reps
             res.count(f"B:{sharing}:{solver}:p{procs}")
             runs[procs] = (e, a, hidden)
-            dg = trajectory_oracle(ctx, n, cls, gapname, limit, e, a, hidden)
+            if other_gap:
+                saved_v, fails = res.violation, []
+                res.violation = lambda *a_, **k_: fails.append((a_, k_))
+                try:
+                    dg = trajectory_oracle(ctx, n, cls, gapname, limit, e, a, hidden)
+                    first = list(fails)
+                    if first:
+                        del fails[:]
+                        trajectory_oracle(ctx, n, cls, other_gap, limit, e, a, hidden)
+                finally:
+                    res.violation = saved_v
+                if first and fails:
+                    (what_, rp_), kw_ = first[0]
+                    res.violation(what_ + " — neither under the environments' gap function nor under the one given to evaluate(): "
+                                  "the column mixes two gap functions", rp_, **kw_)
+            else:
+                dg = trajectory_oracle(ctx, n, cls, gapname, limit, e, a, hidden)
             if reps >= 2 and limit >= 2 and len(dg) >= 2:
                 res.nontrivial.add((sharing, seed, solver, reps, limit, procs))
-            if procs == 1:
+            if procs == 1 and not other_gap:
                 evalone_lines(ctx, n, cls, gapname, limit, e, a, hidden, max_reps=1)
             if sharing == "shared" and all(h is not None for h in hidden):
                 # which draw did each repetition see?  model: current sharing structure, 2 draws per constructor
